@@ -2,13 +2,18 @@
 from props import _validate_common as V
 
 RULE = ('enumerated: a rejection / crash / nothing at every position of every chain (conversion, validator 0..2) x the ways a value arrives '
-        '(positional, keyword in both orders, mixed, external source, *args zip) x 3 modes; the required / None / default cascade of one '
+        '(positional, keyword in both orders, mixed, external source, *args zip) x 3 modes; WHICH Parameter a rejection names: 2-3 Parameters, the '
+        'rejecting validator at every position of a chain of 1-2 raising a ValidatorException that ALREADY carries a parameter_name - set by the '
+        'validator itself, by Validator.validate_param(value, parameter_name=...) of one delegating (composite) validator around it, of two nested ones, '
+        'or both - equal to ANOTHER declared Parameter of the same function, to its own Parameter, to an undeclared name or to \'\' x arrival route x mode; '
+        'the required / None / default cascade of one '
         'parameter in every combination (required x Parameter default x signature default x call x external source x mode x strict); surplus '
         'arguments (unknown keyword, extra positional, undeclared signature parameter, Parameter outside the signature) x strict x mode x '
         'method x async.  Plus seeded structured programs: 1-4 named parameters (+-self as real methods, sync/async, +-defaults, keyword-only, '
         '*args), shuffled declarations (plain / EnvironmentVariableParameter set or unset / harness-defined ExternalParameter; default NoValue, '
         'value, None, falsy; required or not; value_type in None,int,float,bool,str,list,dict; chains of 0-3 recording validators that map, '
-        'return None, return a falsy constant, reject or crash; duplicate and out-of-signature declarations as near misses), strict, '
+        'return None, return a falsy constant, reject or crash, ~30 % of them with a pre-set / delegated foreign parameter_name on their exception; '
+        'duplicate and out-of-signature declarations as near misses), strict, '
         'ignore_input, calls with every prefix length, shuffled keywords, omissions, None, falsy values, surplus, a name passed twice, the '
         'same object twice, a keyword called self; ordinary parameters called args, kwargs, cls, and self in a non-first position; a VAR_POSITIONAL '
         'parameter spelled *args or *rest, the string \'*args\' as a default value (enumerated: x a Parameter declared for that name or not x spare Parameter x 0-2 surplus positionals x strict x mode).  '
@@ -18,7 +23,9 @@ RULE = ('enumerated: a rejection / crash / nothing at every position of every ch
         'defaulted parameter in every combination x which validator re-enters x same / second function x call styles x mode x strict, followed by a '
         'sequential repetition of the outer call; every call of a history is judged by the same gate oracle as a single call.  Plus Flask sources (FlaskJson/Form/Get/Header/PathParameter under app.test_request_context: JSON body, form, query string, headers; the strict all-JSON surplus-key rule).  non-trivial = the call carries an argument or a Parameter is declared')
 EXHAUSTIVE = {'quick': False, 'thorough': False}
-ASSUMPTIONS = ['validators raise ValidatorException to reject (any other exception propagates unchanged: modelled as `crash`)',
+ASSUMPTIONS = ['validators raise ValidatorException to reject (any other exception propagates unchanged: modelled as `crash`); the exception may carry ANY parameter_name',
+               'a Parameter\'s name is a non-empty string (invariant `nameNonEmpty` of the model; Parameter(name=\'\') names no parameter of any function - '
+               'for it the naming clause is false, `rejection_naming_full_fails` - and is not generated)',
                'convert_value is an abstract step here: its results on the literals used are a static table in the harness (its own contract is C14)',
                'overlapping calls are exercised as re-entrant (nested) calls on one thread, not with threads',
                'Flask is installed (the trailing strict block of _wrapper_content touches the request proxy when every Parameter is a FlaskJsonParameter, also when there is none)']
@@ -27,7 +34,7 @@ TRUSTED = ['Python call binding (positional / keyword / defaults / *args) is mod
 
 
 def cases(rng, tier):
-    out = V.gate_enum(rng) + V.one_param_cascade(rng) + V.surplus_enum(rng) + V.varpos_enum(rng) + V.reentrant_enum(rng)
+    out = V.gate_enum(rng) + V.naming_enum(rng) + V.one_param_cascade(rng) + V.surplus_enum(rng) + V.varpos_enum(rng) + V.reentrant_enum(rng)
     out += V.random_cases(rng, 44000 if tier == 'quick' else 240000, allow_varargs=True)
     out += V.scenario_cases(rng, 3000 if tier == 'quick' else 20000, allow_varargs=True)
     out += V.flask_cases(rng, 4000 if tier == 'quick' else 30000)
